@@ -457,7 +457,7 @@ impl<'a> TermWriter<'a> {
                 &TermRef::AnonVar(_) => {
                     if let Some((arity, site_h)) = self.queue.pop_front() {
                         self.var_dict
-                            .insert(VarKey::AnonVar(h), heap_loc_as_cell!(site_h));
+                            .insert(VarKey::AnonVar(site_h), heap_loc_as_cell!(site_h));
 
                         if arity > 1 {
                             self.queue.push_front((arity - 1, site_h + 1));
